@@ -41,14 +41,14 @@ pub open spec fn alive(p: Up) -> bool { p == Up::Live || p == Up::Subscribing }
 pub open spec fn itb<T>(h: Heap, g: G<T>) -> int { h.inner_talkback->Some_0.gen@ }
 pub open spec fn set_inner<T>(g: G<T>, j: int, l: UpLink<T>) -> G<T> { G { inners: g.inners.update(j, l), ..g } }
 
-//@invpart safe @C17 stored talkbacks refer to existing generations; a live level has its talkback stored
+//@invpart safe @C17,C04 stored talkbacks refer to existing generations; a live level has its talkback stored
 //@invpart gen @C11 only the latest inner generation can be alive
 //@invpart proto @C01 greeting and link phases agree; the output is over exactly when both levels are gone
 //@invpart term @C02 at most one termination per link
-//@invpart data @C11 the sink has received exactly the data of the inner sources, in arrival order
+//@invpart data @C11,C06 the sink has received exactly the data of the inner sources, in arrival order
 //@invpart fwd @C05 an error of either level reaches the sink unchanged
-//@invpart act @C11 the stored inner talkback is the live, latest inner
-//@invpart pull @C14 demand conservation: the outstanding Pull rests with the active inner, else with the outer
+//@invpart act @C11,C06 the stored inner talkback is the live, latest inner
+//@invpart pull @C14,C06 demand conservation: the outstanding Pull rests with the active inner, else with the outer
 pub open spec fn inv_safe<T>(h: Heap, g: G<T>, c: Cap) -> bool {
     &&& (h.inner_talkback is Some ==> 0 <= itb(h, g) < g.inners.len())
     &&& (g.outer.phase == Up::Live ==> h.outer_talkback is Some)
@@ -110,7 +110,7 @@ pub open spec fn mono<T>(a: Heap, ga: G<T>, b: Heap, gb: G<T>) -> bool {
 pub open spec fn sink_rel<T>(a: Heap, ga: G<T>, b: Heap, gb: G<T>, c: Cap) -> bool { true }
 pub open spec fn nothing_alive<T>(g: G<T>) -> bool { g.outer.phase != Up::Live && forall|j: int| 0 <= j < g.inners.len() ==> !alive((#[trigger] g.inners[j]).phase) }
 
-//@include env_dn.rs OP=flatten TP=T G=G<T> GNAME=G HEAP=Heap O=T ORPHAN="nothing_alive(g)" QUIET=true SINKGATE="k == $GATE_FLAT_DONE ==> (m is Terminate ==> g.outer.phase == Up::EndedBySelf && nothing_alive(g))"
+//@include env_dn.rs OP=flatten TP=T G=G<T> GNAME=G HEAP=Heap O=T ORPHAN="nothing_alive(g)" QUIET=true LITE=false SINKGATE="k == $GATE_FLAT_DONE ==> (m is Terminate ==> g.outer.phase == Up::EndedBySelf && nothing_alive(g))"
 
 // ---------------------------------------------------------------------------------------------------
 // most general conformant outer source (emits fresh inner sources) and inner sources
